@@ -4,7 +4,7 @@ for l in open('/verif/properties.jsonl'):
     p=json.loads(l)
     if p['id']==pid: break
 d=(sys.argv[2] if len(sys.argv) > 2 else '/tmp/seed_')+pid
-print(f"""You are working alone in a scratch git worktree of the Rust crate audunhalland/entrait at {d} (a proc-macro crate that generates traits and delegating impls from functions, modules, traits and impl blocks, for dependency injection and mocking). Work ONLY inside {d}; never touch /repo or /verif. The sandbox is offline: always pass --offline to cargo. The existing test suite is run with `cd {d} && cargo nextest run --workspace --no-fail-fast --offline` (40 tests; fallback: `cargo test --workspace --no-fail-fast --offline`). Start by reading README.md and ALL of entrait_macros/src/ (it is ~4000 lines) so that you know the less-travelled code paths.
+print(f"""You are working alone in a scratch git worktree of the Rust crate audunhalland/entrait at {d} (a proc-macro crate that generates traits and delegating impls from functions, modules, traits and impl blocks, for dependency injection and mocking). Work ONLY inside {d}; never touch /repo or /verif, and do not read anything under /repo or /verif either (your worktree has the whole source). The sandbox is offline: always pass --offline to cargo. The existing test suite is run with `cd {d} && cargo nextest run --workspace --no-fail-fast --offline` (40 tests; fallback: `cargo test --workspace --no-fail-fast --offline`). Start by reading README.md and ALL of entrait_macros/src/ (it is ~4000 lines) so that you know the less-travelled code paths.
 
 Here is a semantic property this code base is supposed to satisfy:
 
@@ -20,4 +20,4 @@ Deliverables, in {d}/SEED_OUT/a/, {d}/SEED_OUT/b/ and {d}/SEED_OUT/c/ :
   - patch.diff : `git diff` of the library source change ONLY (must apply with `git apply` to a clean checkout of HEAD)
   - the demonstration file(s) plus run_demo.sh (takes the worktree dir as $1 or uses its own location; copies the demo into place if needed and removes it again on exit; exits 0 if the property holds = demo passes, non-zero if broken)
   - meta.json : {{"property": "{pid}", "summary": "...", "needs_to_manifest": "...", "files_changed": [...], "verified": "what you ran and saw"}}
-You must verify yourself, and say so in meta.json: with the patch applied the full suite passes and the demo fails; on the clean tree the demo passes. When done, leave the worktree's tracked files clean (git checkout -- . ; no demo files left in tests/ or examples/) and remove bulky build output you created outside {d}/target. Report briefly what the three changes are.""")
+You must verify yourself, and say so in meta.json: with the patch applied the full suite passes and the demo fails; on the clean tree the demo passes. When done, leave the worktree's tracked files clean (git checkout -- . ; no demo files left in tests/ or examples/) and remove bulky build output you created outside {d}/target. Report briefly what the three changes are. If, while reading the code, you notice inputs for which the UNMODIFIED tree already violates the property, list them at the end of your report (do not use them as seeds).""")
